@@ -5,7 +5,8 @@
   Dirk/Model/Scatter.lean (§8), Dirk/Model/Crashes.lean (§12), Dirk/Model/Import.lean (§13) and Dirk/Model/Instance.lean
   (§14: the signer's batch signing loop, with the loop bound that Model/ShortRules.lean rests on; §15: the signer's
   pre-check; §16: the ruler's `RunRules` — validation, duplicate-key refusal, path choice — with the lock protocol of
-  Dirk/Model/LockTrace.lean) and Dirk/Model/Lister.lean (§17: the lister's `ListAccounts`), for all inputs.
+  Dirk/Model/LockTrace.lean), Dirk/Model/Lister.lean (§17: the lister's `ListAccounts`) and Dirk/Model/Handler.lean (§18: the batch
+  paths of the gRPC signer handlers: validation, early exits, result → response mapping), for all inputs.
 
   A semantic edit of a Go kernel changes the regenerated definition and one of these theorems stops building;
   a Go construct outside the translator's fragment replaces the definition by `kernelUntranslatable_…`, and this
@@ -20,6 +21,7 @@ import Dirk.Model.Import
 import Dirk.Model.Instance
 import Dirk.Model.LockTrace
 import Dirk.Model.Lister
+import Dirk.Model.Handler
 import Dirk.Gen.Facts
 import Dirk.Gen.Kernels
 
@@ -1715,5 +1717,374 @@ theorem list_shape_is_source :
     Gen.listActionGen = opAccess ∧
     (∀ w n : String, Gen.listCheckedNameFnGen w n = w ++ "/" ++ n) := by
   refine ⟨rfl, by decide, fun _ _ => rfl⟩
+
+/-! ## 18. the batch paths of the gRPC signer handlers `SignBeaconAttestations` / `Multisign` with their `validate…Requests`
+    (services/api/grpc/handlers/signer) ↔ `handlerRejects`, `firstRejected`, `firstRejectedSign`, `respond`, `hSignAtts`,
+    `hMultisign` (Model/Handler.lean)
+
+  The generated definitions name response states by the NAME of the `pb.ResponseState` enumerator; `stateName` is the model's
+  reading (`Res` serves both as `core.Result` and as response state), and where the module's source is available the
+  enumerator VALUES are checked to be the `resCode` ones (`pbStates_agree`).  Where the Go and the model differ:
+  * the Go also refuses a nil entry (FAILED) and, for attestations, absent data / source / target (DENIED); the model has no
+    such values (`AttData` always carries them), so the theorems instantiate those inputs with `false`
+    (`attsEntryVerdict_beyond_model` states what the Go does there);
+  * a name given TOGETHER with a key: both the Go and `handlerRejects` look at the name alone (no `/` ⇒ DENIED whatever the
+    key), so `attsEntryVerdict_eq_model` holds for EVERY `Addr`, not only under the wire invariant `Addr.wire`. -/
+
+/-- the name of a `pb.ResponseState` enumerator, for the model's reading of response states as `Res` -/
+def stateName : Res → String
+  | .unknown => "UNKNOWN" | .succeeded => "SUCCEEDED" | .denied => "DENIED" | .failed => "FAILED"
+
+theorem stateName_inj (a b : Res) (h : stateName a = stateName b) : a = b := by
+  cases a <;> cases b <;> first | rfl | (exact absurd h (by decide))
+
+theorem pbStates_agree :
+    Gen.pbResponseStateValuesGen.all (fun l => l == [(stateName .unknown, resCode .unknown), (stateName .succeeded, resCode .succeeded),
+      (stateName .denied, resCode .denied), (stateName .failed, resCode .failed)]) = true := by decide
+
+theorem attsEntryVerdict_eq_model (a : Addr) :
+    Gen.attsEntryVerdictGen false a.name.isEmpty a.key.isNone (a.name.contains '/') false false false =
+      if handlerRejects a then some (stateName .denied) else none := by
+  unfold handlerRejects Gen.attsEntryVerdictGen stateName
+  cases a.name.isEmpty <;> cases a.key.isNone <;> cases (a.name.contains '/') <;> rfl
+
+theorem attsEntryVerdict_beyond_model (ae kn sl dn sn tn : Bool) :
+    Gen.attsEntryVerdictGen true ae kn sl dn sn tn = some (stateName .failed) ∧
+    (Gen.attsEntryVerdictGen false ae kn sl dn sn tn =
+      if (ae && kn) || (!ae && !sl) || dn || sn || tn then some (stateName .denied) else none) := by
+  cases ae <;> cases kn <;> cases sl <;> cases dn <;> cases sn <;> cases tn <;> exact ⟨rfl, rfl⟩
+
+theorem msignEntryVerdict_eq_model (a : Addr) (d : SignData) :
+    Gen.msignEntryVerdictGen false a.name.isEmpty a.key.isNone (a.name.contains '/') d.data.isNone d.domain.isNone =
+      if handlerRejects a || d.data.isNone || d.domain.isNone then some (stateName .denied) else none := by
+  unfold handlerRejects Gen.msignEntryVerdictGen stateName
+  cases a.name.isEmpty <;> cases a.key.isNone <;> cases (a.name.contains '/') <;> cases d.data.isNone <;>
+    cases d.domain.isNone <;> rfl
+
+theorem msignEntryVerdict_nil (ae kn sl dn mn : Bool) :
+    Gen.msignEntryVerdictGen true ae kn sl dn mn = some (stateName .failed) := rfl
+
+theorem firstBadGen_eq_findIdx {α : Type} (rej : α → Bool) (verdict : α → Option String) (v : String)
+    (hv : ∀ x, verdict x = if rej x then some v else none) (l : List α) :
+    Gen.firstBadGen (l.map verdict) = (l.findIdx? rej).map (fun i => (i, v)) := by
+  induction l with
+  | nil => rfl
+  | cons x xs ih =>
+    simp only [List.map_cons, List.findIdx?_cons, hv x]
+    cases rej x
+    · simp only [Bool.false_eq_true, if_false, Gen.firstBadGen, ih, Option.map_map]
+      congr 1
+    · simp [Gen.firstBadGen]
+
+
+/-- the contract of `firstBad`, stated on the list of verdicts: `firstBadGen` returns the first index whose verdict is
+    `some v` (with that v), every earlier verdict being `none` -/
+theorem firstBadGen_spec (l : List (Option String)) :
+    match Gen.firstBadGen l with
+    | some (i, v) => l[i]? = some (some v) ∧ ∀ j, j < i → l[j]? = some none
+    | none => ∀ j, j < l.length → l[j]? = some none := by
+  induction l with
+  | nil => intro j hj; simp at hj
+  | cons x xs ih =>
+    cases x with
+    | some v => simp [Gen.firstBadGen]
+    | none =>
+      simp only [Gen.firstBadGen]
+      cases hr : Gen.firstBadGen xs with
+      | none =>
+        rw [hr] at ih
+        intro j hj
+        cases j with
+        | zero => rfl
+        | succ j => simpa using ih j (by simpa using hj)
+      | some p =>
+        obtain ⟨i, v⟩ := p
+        rw [hr] at ih
+        refine ⟨by simpa using ih.1, ?_⟩
+        intro j hj
+        cases j with
+        | zero => rfl
+        | succ j => simpa using ih.2 j (by simpa using hj)
+
+theorem replicate_set_eq_range {α : Type} (n i : Nat) (a b : α) :
+    (List.replicate n a).set i b = (List.range n).map (fun j => if j = i then b else a) := by
+  apply List.ext_getElem
+  · simp
+  · intro j h1 h2
+    simp only [List.length_set, List.length_replicate] at h1
+    simp only [List.getElem_set, List.getElem_replicate, List.getElem_map, List.getElem_range]
+    by_cases h : i = j
+    · subst h; simp
+    · have : ¬ j = i := fun e => h e.symm
+      simp [h, this]
+
+/-- the responses after a validation that stopped at `i` (written DENIED), as the model writes them -/
+def rejectedAt (n i : Nat) : List Pos := (List.range n).map (fun j => if j = i then ⟨.denied, none⟩ else ⟨.unknown, none⟩)
+
+theorem batchAfterValidate_findIdx {α : Type} (rej : α → Bool) (l : List α) :
+    Gen.batchAfterValidateGen l.length ((l.findIdx? rej).map (fun i => (i, stateName .denied))) =
+      (l.findIdx? rej).map (fun i => (rejectedAt l.length i).map (fun p => stateName p.res)) := by
+  cases h : l.findIdx? rej with
+  | none =>
+    simp [Gen.batchAfterValidateGen]
+  | some i =>
+    have hi : i < l.length := (List.findIdx?_eq_some_iff_getElem.mp h).1
+    simp only [Gen.batchAfterValidateGen, Option.map_some, rejectedAt, List.map_map, replicate_set_eq_range]
+    rw [if_pos]
+    · congr 1
+      apply List.map_congr_left
+      intro j _
+      by_cases hj : j = i <;> simp [hj, stateName]
+    · simp only [List.any_eq_true, List.mem_map, List.mem_range]
+      exact ⟨stateName .denied, ⟨i, hi, by simp⟩, by simp [stateName]⟩
+
+
+/-- **Any rejected entry stops the handler** — also the Go-only FAILED of a nil entry, for which the model has no value:
+    with the validation stopped at `i < n` having written DENIED or FAILED the responses are returned, `v` at `i` and UNKNOWN
+    elsewhere; with no entry rejected the signer is called. -/
+theorem batchAfterValidate_stops (n i : Nat) (hi : i < n) :
+    Gen.batchAfterValidateGen n (some (i, stateName .denied)) =
+      some ((List.range n).map (fun j => if j = i then stateName .denied else stateName .unknown)) ∧
+    Gen.batchAfterValidateGen n (some (i, stateName .failed)) =
+      some ((List.range n).map (fun j => if j = i then stateName .failed else stateName .unknown)) ∧
+    Gen.batchAfterValidateGen n none = none := by
+  have hany : ∀ v : String, ((List.range n).map (fun j => if j = i then v else "UNKNOWN")).any
+      (fun s => s == "DENIED" || s == "FAILED") = (v == "DENIED" || v == "FAILED") := by
+    intro v
+    by_cases hv : (v == "DENIED" || v == "FAILED") = true
+    · rw [hv]
+      simp only [List.any_eq_true, List.mem_map, List.mem_range]
+      exact ⟨v, ⟨i, hi, by simp⟩, hv⟩
+    · simp only [Bool.not_eq_true] at hv
+      rw [hv]
+      simp only [List.any_eq_false, List.mem_map, List.mem_range]
+      rintro s ⟨j, _, rfl⟩
+      by_cases hj : j = i
+      · simp only [hj, if_true]; simp [hv]
+      · simp [hj]
+  refine ⟨?_, ?_, ?_⟩
+  · simp only [Gen.batchAfterValidateGen, replicate_set_eq_range, stateName, hany]; rfl
+  · simp only [Gen.batchAfterValidateGen, replicate_set_eq_range, stateName, hany]; rfl
+  · simp [Gen.batchAfterValidateGen]
+
+/-- the verdict the generated validation of `SignBeaconAttestations` gives a model entry (a non-nil entry with data and both
+    checkpoints: the model's `AttData` has no absent data / checkpoint) -/
+def attsVerdictOf (a : Addr) : Option String :=
+  Gen.attsEntryVerdictGen false a.name.isEmpty a.key.isNone (a.name.contains '/') false false false
+
+/-- … of `Multisign` -/
+def msignVerdictOf (it : Addr × SignData) : Option String :=
+  Gen.msignEntryVerdictGen false it.1.name.isEmpty it.1.key.isNone (it.1.name.contains '/') it.2.data.isNone it.2.domain.isNone
+
+theorem firstBad_eq_firstRejected (as : List Addr) :
+    Gen.firstBadGen (as.map attsVerdictOf) = (firstRejected as).map (fun i => (i, stateName .denied)) :=
+  firstBadGen_eq_findIdx handlerRejects attsVerdictOf (stateName .denied) attsEntryVerdict_eq_model as
+
+theorem firstBad_eq_firstRejectedSign (items : List (Addr × SignData)) :
+    Gen.firstBadGen (items.map msignVerdictOf) = (firstRejectedSign items).map (fun i => (i, stateName .denied)) :=
+  firstBadGen_eq_findIdx (fun it : Addr × SignData => handlerRejects it.1 || it.2.data.isNone || it.2.domain.isNone) msignVerdictOf (stateName .denied)
+    (fun it => msignEntryVerdict_eq_model it.1 it.2) items
+
+/-- **Validation, then the early return** (`SignBeaconAttestations`).  With the first bad entry computed by the generated
+    per-entry verdicts (`firstBadGen`: what the Go loop with `return` does), the responses the generated handler returns
+    after the validation are the model's — DENIED at the first rejected entry, UNKNOWN elsewhere — and it goes on to the
+    signer (`none`) exactly when the model's `firstRejected` finds nothing. -/
+theorem batch_validate_eq_model (as : List Addr) :
+    Gen.batchAfterValidateGen as.length (Gen.firstBadGen (as.map attsVerdictOf)) =
+        (firstRejected as).map (fun i => (rejectedAt as.length i).map (fun p => stateName p.res)) ∧
+      (Gen.batchAfterValidateGen as.length (Gen.firstBadGen (as.map attsVerdictOf)) = none ↔ firstRejected as = none) := by
+  have h := batchAfterValidate_findIdx handlerRejects as
+  rw [firstBad_eq_firstRejected]
+  unfold firstRejected
+  refine ⟨h, ?_⟩
+  rw [h]
+  cases as.findIdx? handlerRejects <;> simp
+
+/-- … stated, as the task has it, with the first rejected index given: for ANY `firstBad` meeting its contract. -/
+theorem batch_validate_eq_model' (as : List Addr) (i : Nat) (h : firstRejected as = some i) :
+    Gen.batchAfterValidateGen as.length (some (i, "DENIED")) =
+      some ((List.range as.length).map (fun j => stateName (if j = i then Res.denied else Res.unknown))) := by
+  have := (batch_validate_eq_model as).1
+  rw [firstBad_eq_firstRejected, h] at this
+  simp only [Option.map_some, rejectedAt, List.map_map] at this
+  rw [show (some (i, "DENIED") : Option (Nat × String)) = some (i, stateName .denied) from rfl, this]
+  congr 2
+  funext j
+  by_cases hj : j = i <;> simp [hj]
+
+/-- `Multisign` likewise, against `firstRejectedSign` -/
+theorem batch_validate_msign_eq_model (items : List (Addr × SignData)) :
+    Gen.batchAfterValidateGen items.length (Gen.firstBadGen (items.map msignVerdictOf)) =
+        (firstRejectedSign items).map (fun i => (rejectedAt items.length i).map (fun p => stateName p.res)) ∧
+      (Gen.batchAfterValidateGen items.length (Gen.firstBadGen (items.map msignVerdictOf)) = none ↔
+        firstRejectedSign items = none) := by
+  have h := batchAfterValidate_findIdx (fun it : Addr × SignData => handlerRejects it.1 || it.2.data.isNone || it.2.domain.isNone) items
+  rw [firstBad_eq_firstRejectedSign]
+  unfold firstRejectedSign
+  refine ⟨h, ?_⟩
+  rw [h]
+  cases items.findIdx? _ <;> simp
+
+/-- **Before the validation.**  A nil request or one without entries gets ONE response, DENIED; the model's empty item
+    list (it has no nil request) gives the same. -/
+theorem batchEarly_eq_model (reqNil : Bool) (n : Nat) :
+    Gen.batchEarlyGen reqNil n = (if reqNil || n == 0 then some [stateName .denied] else none) ∧
+    (∀ (s : Inst) (c : String) (f : Faults) (sf : List Nat),
+      some ((hSignAtts s c [] f sf).2.map (fun p => stateName p.res)) = Gen.batchEarlyGen false 0) ∧
+    (∀ (s : Inst) (c ip : String) (sf : List Nat) (lsf : Bool),
+      some ((hMultisign s c ip [] sf lsf).2.map (fun p => stateName p.res)) = Gen.batchEarlyGen false 0) := by
+  refine ⟨?_, fun _ _ _ _ => rfl, fun _ _ _ _ _ => rfl⟩
+  unfold Gen.batchEarlyGen stateName
+  cases reqNil <;> by_cases h : n = 0 <;> simp [h]
+
+/-- **The handler's refusals are the generated ones** (`hSignAtts`): whenever the generated early exit or the generated
+    validation + early return produce a response list, the model handler returns exactly it (no signature anywhere) and
+    leaves the instance untouched; otherwise the model goes on to the signer and maps `respond` over its result. -/
+theorem hSignAtts_eq_gen (s : Inst) (c : String) (items : List (Addr × AttData)) (f : Faults) (sf : List Nat) :
+    let its := items.map (fun it => (it.1.wire, it.2.wire))
+    match Gen.batchEarlyGen false its.length with
+    | some l => hSignAtts s c items f sf = (s, [⟨.denied, none⟩]) ∧ l = [stateName .denied]
+    | none =>
+      match Gen.batchAfterValidateGen its.length (Gen.firstBadGen ((its.map (·.1)).map attsVerdictOf)) with
+      | some l => (hSignAtts s c items f sf).1 = s ∧ (hSignAtts s c items f sf).2.map (fun p => stateName p.res) = l ∧
+          ∀ p ∈ (hSignAtts s c items f sf).2, p.root = none
+      | none => hSignAtts s c items f sf = ((signAtts s c its f sf).1, (signAtts s c its f sf).2.map respond) := by
+  intro its
+  have hlen : (its.map (·.1)).length = its.length := by simp
+  have hb := batch_validate_eq_model (its.map (·.1))
+  rw [hlen] at hb
+  cases hits : its with
+  | nil =>
+    have : hSignAtts s c items f sf = (s, [⟨.denied, none⟩]) := by
+      unfold hSignAtts; simp only; rw [show items.map (fun it => (it.1.wire, it.2.wire)) = [] from hits]; rfl
+    simp [Gen.batchEarlyGen, this, stateName]
+  | cons x xs =>
+    have hne : its.isEmpty = false := by rw [hits]; rfl
+    have hearly : Gen.batchEarlyGen false (x :: xs).length = none := by simp [Gen.batchEarlyGen]
+    rw [hearly]
+    simp only
+    rw [← hits]
+    have hunf : hSignAtts s c items f sf =
+        match firstRejected (its.map (·.1)) with
+        | some i => (s, rejectedAt its.length i)
+        | none => ((signAtts s c its f sf).1, (signAtts s c its f sf).2.map respond) := by
+      unfold hSignAtts
+      simp only [rejectedAt]
+      rw [show items.map (fun it => (it.1.wire, it.2.wire)) = its from rfl, hne]
+      simp only [Bool.false_eq_true, if_false]
+      rfl
+    rw [hb.1, hunf]
+    cases firstRejected (its.map (·.1)) with
+    | none => rfl
+    | some i =>
+      refine ⟨rfl, rfl, ?_⟩
+      intro p hp
+      simp only [rejectedAt, List.mem_map] at hp
+      obtain ⟨j, _, rfl⟩ := hp
+      split <;> rfl
+
+
+/-- … and `hMultisign` -/
+theorem hMultisign_eq_gen (s : Inst) (c ip : String) (items : List (Addr × SignData)) (sf : List Nat) (lsf : Bool) :
+    let its := items.map (fun it => (it.1.wire, it.2.wire))
+    match Gen.batchEarlyGen false its.length with
+    | some l => hMultisign s c ip items sf lsf = (s, [⟨.denied, none⟩]) ∧ l = [stateName .denied]
+    | none =>
+      match Gen.batchAfterValidateGen its.length (Gen.firstBadGen (its.map msignVerdictOf)) with
+      | some l => (hMultisign s c ip items sf lsf).1 = s ∧
+          (hMultisign s c ip items sf lsf).2.map (fun p => stateName p.res) = l ∧
+          ∀ p ∈ (hMultisign s c ip items sf lsf).2, p.root = none
+      | none => hMultisign s c ip items sf lsf =
+          ((multisign s c ip its sf lsf).1, (multisign s c ip its sf lsf).2.map respond) := by
+  intro its
+  have hb := batch_validate_msign_eq_model its
+  cases hits : its with
+  | nil =>
+    have : hMultisign s c ip items sf lsf = (s, [⟨.denied, none⟩]) := by
+      unfold hMultisign; simp only; rw [show items.map (fun it => (it.1.wire, it.2.wire)) = [] from hits]; rfl
+    simp [Gen.batchEarlyGen, this, stateName]
+  | cons x xs =>
+    have hne : its.isEmpty = false := by rw [hits]; rfl
+    have hearly : Gen.batchEarlyGen false (x :: xs).length = none := by simp [Gen.batchEarlyGen]
+    rw [hearly]
+    simp only
+    rw [← hits]
+    have hunf : hMultisign s c ip items sf lsf =
+        match firstRejectedSign its with
+        | some i => (s, rejectedAt its.length i)
+        | none => ((multisign s c ip its sf lsf).1, (multisign s c ip its sf lsf).2.map respond) := by
+      unfold hMultisign
+      simp only [rejectedAt]
+      rw [show items.map (fun it => (it.1.wire, it.2.wire)) = its from rfl, hne]
+      simp only [Bool.false_eq_true, if_false]
+      rfl
+    rw [hb.1, hunf]
+    cases firstRejectedSign its with
+    | none => rfl
+    | some i =>
+      refine ⟨rfl, rfl, ?_⟩
+      intro p hp
+      simp only [rejectedAt, List.mem_map] at hp
+      obtain ⟨j, _, rfl⟩ := hp
+      split <;> rfl
+
+/-- **The final switch is `respond`.**  For every position the signer returns, the generated mapping applied to the
+    `core.Result` value of `p.res` names `p.res`'s state and copies the signature exactly under SUCCEEDED — which is what
+    `respond p` is.  A value that is no `core.Result` enumerator keeps the creation state UNKNOWN and copies nothing. -/
+theorem resultToState_eq_respond (p : Pos) :
+    Gen.resultToStateGen (resCode p.res) = (stateName p.res, decide (p.res = .succeeded)) ∧
+    respond p = ⟨p.res, if (Gen.resultToStateGen (resCode p.res)).2 then p.root else none⟩ ∧
+    (stateName (respond p).res = (Gen.resultToStateGen (resCode p.res)).1) ∧
+    ((Gen.resultToStateGen (resCode p.res)).2 = true ↔ p.res = .succeeded) ∧
+    (∀ n, resOfCode n = none → Gen.resultToStateGen n = (stateName .unknown, false)) := by
+  refine ⟨?_, ?_, ?_, ?_, ?_⟩
+  · cases h : p.res <;> rfl
+  · obtain ⟨r, root⟩ := p
+    cases r <;> rfl
+  · cases h : p.res <;> simp [respond, h, resCode, Gen.resultToStateGen, stateName]
+  · cases h : p.res <;> simp [resCode, Gen.resultToStateGen]
+  · intro n hn
+    match n, hn with
+    | 0, hn | 1, hn | 2, hn | 3, hn => simp [resOfCode] at hn
+    | n + 4, _ => simp [Gen.resultToStateGen, stateName]
+
+/-- **The shape.**  The facts the model's `hSignAtts` / `hMultisign` rest on, as read from the source of both handlers: one
+    response per entry, created UNKNOWN; the validation between that and the signer; the early return on DENIED or FAILED;
+    the signer called once with `accountNames[i] = request.GetAccount()`, `pubKeys[i] = request.GetPublicKey()`; the results
+    mapped position by position; and both handlers give the same early exits, the same after-validation behaviour and the
+    same switch. -/
+theorem handler_shape_is_source :
+    Gen.handlerShapeGen = [
+      "responses: res.Responses = make([]*pb.SignResponse, len(req.GetRequests())); for i := range req.GetRequests() { res.Responses[i] = &pb.SignResponse{State: pb.ResponseState_UNKNOWN} }",
+      "validation [SignBeaconAttestations]: validateSignBeaconAttestationsRequests(ctx, req, res) is called after the responses are created and before the signer",
+      "validation [Multisign]: validateMultisignRequests(ctx, req, res) is called after the responses are created and before the signer",
+      "early return: for i := range req.GetRequests() { if res.Responses[i].State == pb.ResponseState_DENIED || res.Responses[i].State == pb.ResponseState_FAILED { return res, nil } }",
+      "accountNames: accountNames := make([]string, len(req.GetRequests())); for i, request := range req.GetRequests(): accountNames[i] = request.GetAccount()",
+      "pubKeys: pubKeys := make([][]byte, len(req.GetRequests())); for i, request := range req.GetRequests(): pubKeys[i] = request.GetPublicKey()",
+      "reqData [SignBeaconAttestations]: reqData := make([]*rules.SignBeaconAttestationData, len(req.GetRequests())); for i, request := range req.GetRequests(): reqData[i] = &rules.SignBeaconAttestationData{Domain: request.GetDomain(), Slot: request.GetData().GetSlot(), CommitteeIndex: request.GetData().GetCommitteeIndex(), BeaconBlockRoot: request.GetData().GetBeaconBlockRoot(), Source: &rules.Checkpoint{Epoch: request.GetData().GetSource().GetEpoch(), Root: request.GetData().GetSource().GetRoot()}, Target: &rules.Checkpoint{Epoch: request.GetData().GetTarget().GetEpoch(), Root: request.GetData().GetTarget().GetRoot()}}",
+      "reqData [Multisign]: reqData := make([]*rules.SignData, len(req.GetRequests())); for i, request := range req.GetRequests(): reqData[i] = &rules.SignData{Domain: request.GetDomain(), Data: request.GetData()}",
+      "signer call [SignBeaconAttestations]: results, signatures := h.signer.SignBeaconAttestations(ctx, handlers.GenerateCredentials(ctx), accountNames, pubKeys, reqData) (the only call of the signer, after the early-return loop)",
+      "signer call [Multisign]: results, signatures := h.signer.Multisign(ctx, handlers.GenerateCredentials(ctx), accountNames, pubKeys, reqData) (the only call of the signer, after the early-return loop)",
+      "result loop: for i := range results { switch results[i] { … } }: response i takes the state and the signature the arm of results[i] gives it",
+      "return: return res, nil"] ∧
+    Gen.batchEarlySameInBothGen = true ∧ Gen.batchAfterValidateSameInBothGen = true ∧
+    Gen.resultToStateSameInBothGen = true := ⟨rfl, rfl, rfl, rfl⟩
+
+/-- the theorems above speak about non-trivial values: a batch whose second entry names an account without `/` -/
+example :
+    let as : List Addr := [⟨"w/a", none⟩, ⟨"bad", none⟩, ⟨"", none⟩]
+    firstRejected as = some 1 ∧
+    Gen.batchAfterValidateGen as.length (Gen.firstBadGen (as.map attsVerdictOf)) = some ["UNKNOWN", "DENIED", "UNKNOWN"] := by
+  have h : firstRejected [⟨"w/a", none⟩, ⟨"bad", none⟩, ⟨"", none⟩] = some 1 := by
+    simp [firstRejected, List.findIdx?_cons, handlerRejects]
+  refine ⟨h, ?_⟩
+  rw [(batch_validate_eq_model _).1, h]
+  rfl
+
+/-- … and the Go-only corners the model has no value for: a nil entry is FAILED (still an early return), and with the
+    entry verdicts of a batch `[ok, nil entry, bad name]` the validation stops at the nil entry -/
+example :
+    Gen.batchAfterValidateGen 3 (Gen.firstBadGen [none, some "FAILED", some "DENIED"]) = some ["UNKNOWN", "FAILED", "UNKNOWN"] := by
+  decide
 
 end Dirk
